@@ -50,6 +50,8 @@ const PAYEES: &[&str] = &[
     "Hamachi Super",
     "#4711 Invoice",
     "31415 92653",
+    "27182",
+    "Postcard  stamps",
 ];
 
 const HOSTILE: &[&str] = &[
@@ -154,7 +156,7 @@ fn gen_rules(rng: &mut Rng, rich: bool, has_category: bool, has_sec: bool) -> Ve
     }
     if rich && rng.chance(1, 4) {
         // two patterns that differ in letter case only and mean opposite things
-        let twins = [("^\\D+$", "^\\d"), ("\\S \\S", "^\\s"), ("^\\w+$", "\\W"), ("\\bcard\\b", "\\Bard")];
+        let twins = [("^\\D+$", "^\\d+$"), ("\\S \\S", "\\s \\s"), ("^\\w+$", "^\\W+$"), ("\\bCard", "\\BCard"), ("^\\D", "^\\d")];
         let (a, b) = twins[rng.usize(twins.len())];
         let (a, b) = if rng.chance(1, 2) { (a, b) } else { (b, a) };
         for (pat, acct) in [(a, "Expenses:Twin:One"), (b, "Expenses:Twin:Two")] {
